@@ -762,6 +762,215 @@ theorem ownKeys_sound (ext : Bool) (tk : List (Key × Bool)) (items : List KItem
       exact ⟨rfl, hacc⟩
     · simp at h
 
+
+/-! ## the enforced invariants, as a user of ANY proxy sees them
+
+The `…_eq_spec` theorems say the checks are the spec's checks.  The theorems below spell out what that buys for an
+ARBITRARY handler (the trap result is universally quantified): whenever the proxy operation completes normally, its result
+is consistent with the facts the target guarantees — the list of "invariants enforced" in the NOTEs of ECMA-262 §10.5.1 –
+§10.5.11 — on the mechanism functions transcribed from proxy.go. -/
+
+/-- [[GetPrototypeOf]]: for a non-extensible target the proxy reports the target's prototype -/
+theorem inv_getPrototypeOf (tp : Option Nat) (v : Val) (r : Option Nat)
+    (h : mechGetProto false tp (some v) = .ok r) : r = tp := by
+  rw [getProto_eq_spec] at h
+  cases v <;> simp [specGetProto] at h <;> (try split at h) <;> simp_all
+
+/-- [[SetPrototypeOf]]: success on a non-extensible target only for the target's own prototype -/
+theorem inv_setPrototypeOf (tp p : Option Nat) (b thr : Bool)
+    (h : mechSetProto false tp p b thr = .ok true) : p = tp := by
+  rw [setProto_eq_spec] at h
+  cases b <;> cases thr <;> simp [specSetProto] at h <;> (try split at h) <;> simp_all
+
+/-- [[IsExtensible]]: the proxy reports the target's extensibility -/
+theorem inv_isExtensible (ext b r : Bool) (h : mechIsExtensible ext b = .ok r) : r = ext := by
+  cases ext <;> cases b <;> simp [mechIsExtensible] at h <;> simp_all
+
+/-- [[PreventExtensions]]: reported success means the target is non-extensible -/
+theorem inv_preventExtensions (ext b thr : Bool) (h : mechPreventExtensions ext b thr = .ok true) : ext = false := by
+  cases ext <;> cases b <;> cases thr <;> simp [mechPreventExtensions] at h <;> rfl
+
+/-- [[HasProperty]]: a property cannot be reported absent if it is non-configurable, or if it exists and the target is
+non-extensible -/
+theorem inv_has (prop : TProp) (ext b : Bool) (h : mechHas prop ext b = .ok false) :
+    prop.toCur = none ∨ (∃ c, prop.toCur = some c ∧ c.configurable = true ∧ ext = true) := by
+  rw [has_eq_spec] at h
+  cases b
+  · cases hc : prop.toCur with
+    | none => left; rfl
+    | some c =>
+      right
+      refine ⟨c, rfl, ?_⟩
+      simp only [specHas, hc, specHasCheck] at h
+      cases hcf : c.configurable <;> cases ext <;> simp_all
+  · simp [specHas] at h
+
+/-- [[Get]]: the value of a non-writable, non-configurable data property is reported exactly; a non-configurable accessor
+without getter reads as undefined -/
+theorem inv_get (prop : TProp) (hp : prop.WF) (v r : Val) (h : mechGet prop v = .ok r) :
+    (∀ x e, prop.toCur = some (.data x false e false) → r = x) ∧
+    (∀ s e, prop.toCur = some (.acc none s e false) → r = .undef) := by
+  rw [get_eq_spec prop v hp] at h
+  constructor
+  · intro x e hc
+    simp only [specGet, hc, specGetCheck] at h
+    split at h <;> simp_all
+  · intro s e hc
+    simp only [specGet, hc, specGetCheck] at h
+    split at h <;> simp_all
+
+/-- [[Set]]: success cannot be reported for a different value of a non-writable, non-configurable data property, nor for
+a non-configurable accessor without setter -/
+theorem inv_set (prop : TProp) (hp : prop.WF) (v : Val) (b thr : Bool) (h : mechSet prop v b thr = .ok true) :
+    (∀ x e, prop.toCur = some (.data x false e false) → v = x) ∧
+    (∀ g e, prop.toCur ≠ some (.acc g none e false)) := by
+  rw [set_eq_spec prop v b thr hp] at h
+  cases b
+  · cases thr <;> simp [specSet] at h
+  · constructor
+    · intro x e hc
+      simp only [specSet, hc, specSetCheck] at h
+      by_cases hv : v = x
+      · exact hv
+      · simp [hv] at h
+    · intro g e hc
+      simp [specSet, hc, specSetCheck] at h
+
+/-- [[Delete]]: success cannot be reported for a non-configurable property, nor for an existing property of a
+non-extensible target -/
+theorem inv_delete (prop : TProp) (ext b thr : Bool) (h : mechDelete prop ext b thr = .ok true) :
+    prop.toCur = none ∨ (∃ c, prop.toCur = some c ∧ c.configurable = true ∧ ext = true) := by
+  rw [delete_eq_spec] at h
+  cases b
+  · cases thr <;> simp [specDelete, specDeleteCheck] at h
+  · cases hc : prop.toCur with
+    | none => left; rfl
+    | some c =>
+      right
+      refine ⟨c, rfl, ?_⟩
+      simp only [specDelete, hc, specDeleteCheck] at h
+      cases hcf : c.configurable <;> cases ext <;> simp_all
+
+/-- [[DefineOwnProperty]]: a property cannot be added to a non-extensible target, and cannot be made (or reported)
+non-configurable unless a non-configurable property exists on the target -/
+theorem inv_define (prop : TProp) (hp : prop.WF) (ext : Bool) (d : Desc) (hd : d.Valid) (b thr : Bool)
+    (h : mechDefine isCompatible prop ext d b thr = .ok true) :
+    (ext = false → prop.toCur ≠ none) ∧
+    (d.configurable = .fals → ∃ c, prop.toCur = some c ∧ c.configurable = false) := by
+  rw [define_eq_spec prop ext d b thr hd hp] at h
+  cases b
+  · cases thr <;> simp [specDefine] at h
+  · simp only [specDefine, specDefineCheck] at h
+    cases hc : prop.toCur with
+    | none =>
+      simp only [hc] at h
+      constructor
+      · intro he; subst he; simp at h
+      · intro hcf
+        cases ext <;> simp_all [Desc.toPD, Flag.toOpt]
+    | some c =>
+      simp only [hc] at h
+      refine ⟨fun _ => by simp, ?_⟩
+      intro hcf
+      refine ⟨c, rfl, ?_⟩
+      cases hcc : c.configurable
+      · rfl
+      · exfalso
+        have hscf : (d.toPD.configurable == some false) = true := by simp [Desc.toPD, hcf, Flag.toOpt]
+        simp only [Bool.not_true, Bool.false_eq_true, if_false, hscf, hcc, Bool.and_self, if_true] at h
+        cases hcomp : specIsCompatible ext d.toPD (some c) <;> simp [hcomp] at h
+
+theorem PD.complete_fields (d : PD) : d.complete.configurable.isSome ∧ d.complete.enumerable.isSome := by
+  rcases d with ⟨v, w, g, s, e, c⟩
+  simp only [PD.complete]
+  split <;> simp
+
+/-- in the descriptor branch every normal completion reports the completed descriptor -/
+theorem specGopd_desc_result (c : Option Cur) (ext : Bool) (d : PD) (r : Option Cur)
+    (h : specGopd c ext (.desc d) = .ok r) :
+    r = some d.complete.toCur ∧ specIsCompatible ext d.complete c = true ∧
+    (d.complete.configurable = some false → ∃ c0, c = some c0 ∧ c0.configurable = false) := by
+  simp only [specGopd] at h
+  split at h
+  · simp at h
+  · rename_i hcomp
+    have hcomp' : specIsCompatible ext d.complete c = true := by simpa using hcomp
+    split at h
+    · rename_i hcf
+      have hcf' : d.complete.configurable = some false := by simpa using hcf
+      cases c with
+      | none => simp at h
+      | some c0 =>
+        simp only at h
+        split at h
+        · simp at h
+        · rename_i hc0
+          have hc0' : c0.configurable = false := by simpa using hc0
+          refine ⟨?_, hcomp', fun _ => ⟨c0, rfl, hc0'⟩⟩
+          split at h
+          · split at h
+            · simp at h
+            · injection h with h; exact h.symm
+          · injection h with h; exact h.symm
+    · rename_i hcf
+      injection h with h
+      exact ⟨h.symm, hcomp', fun hx => by simp [hx] at hcf⟩
+
+/-- [[GetOwnProperty]], arbitrary handler: a non-configurable property cannot be reported absent, nor an existing one on a
+non-extensible target; a property absent from a non-extensible target is reported absent; a property cannot be reported
+non-configurable unless the target has it non-configurable -/
+theorem inv_getOwnProperty (prop : TProp) (hp : prop.WF) (ext : Bool) (trap : TrapDesc)
+    (ht : ∀ d, trap = .obj d → d.Valid) (r : TProp) (h : mechGopd isCompatible toValueProp prop ext trap = .ok r) :
+    (r.toCur = none → prop.toCur = none ∨ ∃ c, prop.toCur = some c ∧ c.configurable = true ∧ ext = true) ∧
+    (prop.toCur = none → ext = false → r.toCur = none) ∧
+    (∀ c', r.toCur = some c' → c'.configurable = false → ∃ c, prop.toCur = some c ∧ c.configurable = false) := by
+  have hs := gopd_eq_spec prop ext trap ht hp
+  rw [h] at hs
+  simp only at hs
+  cases trap with
+  | nonObject => simp [specGopd, TrapDesc.toSpec] at hs
+  | undef =>
+    simp only [specGopd, TrapDesc.toSpec] at hs
+    cases hc : prop.toCur with
+    | none =>
+      simp only [hc] at hs
+      injection hs with hs
+      exact ⟨fun _ => Or.inl rfl, (fun _ _ => hs), (fun c' hc' _ => by rw [hs] at hc'; cases hc')⟩
+    | some c =>
+      simp only [hc] at hs
+      cases hcf : c.configurable <;> cases ext <;> simp [hcf] at hs
+      exact ⟨fun _ => Or.inr ⟨c, rfl, hcf, rfl⟩, (fun hn => by cases hn), (fun c' hc' _ => by rw [hs] at hc'; cases hc')⟩
+  | obj d =>
+    simp only [TrapDesc.toSpec] at hs
+    obtain ⟨hr, hcomp, hnc⟩ := specGopd_desc_result prop.toCur ext d.toPD r.toCur hs.symm
+    refine ⟨(fun hn => by rw [hn] at hr; cases hr), ?_, ?_⟩
+    · intro hn he
+      rw [hn, he] at hcomp
+      simp [specIsCompatible] at hcomp
+    · intro c' hc' hcf'
+      rw [hr] at hc'
+      injection hc' with hc'
+      apply hnc
+      -- a completed descriptor reports exactly its own `configurable`
+      obtain ⟨h1, _⟩ := PD.complete_fields d.toPD
+      cases hcc : d.toPD.complete.configurable with
+      | none => simp [hcc] at h1
+      | some b =>
+        have : c'.configurable = b := by
+          rw [← hc']; simp only [PD.toCur]; split <;> simp [Cur.configurable, hcc]
+        rw [hcf'] at this
+        rw [← this]
+
+/-- [[OwnPropertyKeys]]: the result has no duplicates, contains every non-configurable own key of the target, and for a
+non-extensible target is exactly the target's key set -/
+theorem inv_ownKeys (ext : Bool) (tk : List (Key × Bool)) (items : List KItem) (ks : List Key)
+    (hT : (tk.map (·.1)).Nodup) (h : mechOwnKeys ext tk items = .ok ks) :
+    ks.Nodup ∧ (∀ kc ∈ tk, kc.2 = false → kc.1 ∈ ks) ∧
+    (ext = false → (∀ kc ∈ tk, kc.1 ∈ ks) ∧ ∀ k ∈ ks, k ∈ tk.map (·.1)) := by
+  have := (ownKeys_sound ext tk items ks hT h).2
+  simp only [specOwnKeysAccept, decide_eq_true_eq] at this
+  exact ⟨this.1, fun kc hkc hf => this.2.1 kc hkc hf, fun he => ⟨(this.2.2 he).1, (this.2.2 he).2⟩⟩
+
 /-! ## the ordinary object as a concrete lawful target -/
 
 /-- the ordinary object (§10.1; Ordinary.lean `ordOps`: mutable own properties with full
